@@ -9,11 +9,11 @@ CHECKS = {
    note="Trusted: the simulator's synchronous transport is faithful to one-lock-hold-per-step; no equivocation generated; hooks are read-only."),
  "C02": dict(engine="nodesim", cat="exploration", ref="DESIGN.md §3 C02",
    technique="runtime monitoring: callback-sequence monitor plus re-reads of delivered blocks after every step",
-   text="Per node: commit callbacks must have consecutive indexes (0, or anchor+1 after a reset) and strictly increasing round-received; every delivered index is re-read from the store (recent ones every step, all periodically) and must equal the delivered body plus the application's response; the set of signers may only grow. Includes in-place fast-forward resets served by the peer with the oldest anchor, transient frame-write failures in the middle of a consensus pass, and live soak runs with concurrent readers.",
+   text="Per node: commit callbacks must have consecutive indexes (0, or anchor+1 after a reset) and strictly increasing round-received; every delivered index is re-read from the store (recent ones every step, all periodically) and must equal the delivered body plus the application's response; the set of signers may only grow; the same blocks are read back through the node's HTTP service API (/block/, /blocks/). Includes in-place fast-forward resets served by the peer with the oldest anchor, transient frame-write failures in the middle of a consensus pass, and live soak runs with concurrent readers.",
    note="Reads happen between lock holds (single-threaded simulator). In-memory stores are not judged for blocks they evicted."),
  "C04": dict(engine="nodesim", cat="exploration", ref="DESIGN.md §3 C04",
    technique="runtime monitoring: delivered blocks joined with the harness's own DAG record (ancestry DFS, payload concatenation)",
-   text="The harness records every event (parents, payload) at the store boundary. For each delivered block of each node: block payload must be the concatenation of its frame's events' payloads, frame = events the node marks received in that round, no event twice, and every payload-carrying ancestor of a committed payload-carrying event is committed earlier.",
+   text="The harness records every event (parents, payload) at the store boundary. For each delivered block of each node: block payload must be the concatenation of its frame's events' payloads, frame = events the node marks received in that round, no event twice, and every payload-carrying ancestor of a committed payload-carrying event is committed earlier. A quarter of the histories lose commit acknowledgements (the application processes a block, the commit call returns an error).",
    note="The DAG record is built from what real stores expose; unique transaction ids make the join unambiguous."),
  "C05": dict(engine="nodesim", cat="exploration", ref="DESIGN.md §3 C05",
    technique="runtime monitoring with fault injection: multiset conservation monitor over submissions, pools, own events and commits",
@@ -29,7 +29,7 @@ CHECKS = {
    note="Sets compared as sets of keys; order judged through the block's peer-set hash against the node's own reported set."),
  "C19": dict(engine="thresholds", cat="exploration", ref="DESIGN.md §3 C19",
    technique="runtime monitoring: the real threshold methods and acceptance decisions executed for every n in 1..100000 against integer arithmetic",
-   text="Exhaustive for the stated range: SuperMajority()/TrustCount() of real PeerSet values for every n = 1..100000 against 'least k with 3k>2n' and 'accepted count > n/3' and the derived intersection facts; random branching add/remove/re-add sequences through WithNewPeer/WithRemovedPeer against a model of distinct keys; the real CheckBlock and SetAnchorBlock for all n<=16, k<=n with real keys.",
+   text="Exhaustive for the stated range: SuperMajority()/TrustCount() of real PeerSet values for every n = 1..100000 against 'least k with 3k>2n' and 'accepted count > n/3' and the derived intersection facts; random branching add/remove/re-add sequences through WithNewPeer/WithRemovedPeer against a model of distinct keys; the real CheckBlock and SetAnchorBlock for all n<=16, k<=n with real keys, and the anchor decision through the signature pool on a node that knows a second, larger validator set.",
    note="For n>1500 the PeerSet is assembled from the same exported fields NewPeerSet fills (maps shared between successive n). Refusal of sufficient signatures is not flagged."),
  "C03": dict(engine="dagcheck", cat="exploration", ref="DESIGN.md §3 C03",
    technique="runtime monitoring: differential execution of one DAG by many real Hashgraph instances (orders, stores, caches, batchings, sub-DAGs)",
@@ -37,7 +37,7 @@ CHECKS = {
    note="Static validator set; variants ending in a store-miss error below the default cache are outside the supported range and dropped (counted)."),
  "C07": dict(engine="dagcheck", cat="exploration", ref="DESIGN.md §3 C07",
    technique="runtime monitoring over an input grammar: tampered insertion attempts against a harness-side admission predicate plus state-digest and listing invariants",
-   text="Valid DAGs are fed to a real Hashgraph through the real insert path with ~60 hostile attempts per case (each body field altered with/without re-signing by the Byzantine creator, equivocations, wrong/duplicate/negative/skipped indexes, unknown parents, foreign creators, membership requests signed by others), directly and through wire decoding; an inadmissible event must be refused, a refusal must leave a state digest unchanged, per-creator listings must stay gap-free with index == position.",
+   text="Valid DAGs are fed to a real Hashgraph through the real insert path with ~60 hostile attempts per case (each body field altered with/without re-signing by the Byzantine creator, equivocations, wrong/duplicate/negative/skipped indexes, unknown parents, foreign creators, membership requests signed by others, requests about the creator itself with forged signatures), directly and through wire decoding; admissibility is decided by the harness's own signature verification; an inadmissible event must be refused, a refusal must leave a state digest unchanged, per-creator listings must stay gap-free with index == position.",
    note="A valid event being refused is not flagged. Panics during an attempt count as refusal here (C08 judges survival)."),
  "C08": dict(engine="hostile", cat="exploration", ref="DESIGN.md §3 C08",
    technique="runtime monitoring with hostile input generation: recover-instrumented synchronous RPC path plus real TCP streams against running nodes in child processes",
@@ -57,7 +57,7 @@ CHECKS = {
    note="A reset node is judged only for as long as it can insert what it receives (property's own escape clause)."),
  "C14": dict(engine="nodesim+forger", cat="exploration", ref="DESIGN.md §3 C14",
    technique="runtime monitoring over forged inputs: forged self-signed validator sets offered to victims under a state digest",
-   text="Forged responses (1-4 stranger keys, self-made validator set, correctly self-signed block, empty or copied frame, any block index) are offered to victims in three states through core.fastForward and through the node-level flow next to honest responders; they must be refused with the state digest unchanged.",
+   text="Forged responses (1-4 stranger keys, self-made validator set, correctly self-signed block, empty or copied frame, any block index) are offered to victims in three states through core.fastForward and through the node-level flow next to honest responders, including forger keys whose 32-bit peer id equals that of a validator the victim knows; they must be refused with the state digest unchanged.",
    note="'Reason to trust' = configured peers, genesis peers, current validators and derived sets. A known Byzantine validator forging is outside this property."),
  "C18": dict(engine="nodesim+puppet / dagcheck", cat="exploration", ref="DESIGN.md §3 C18",
    technique="runtime monitoring: per-block timestamp oracle from the harness's own record of claimed times, with lying puppet validators and synthetic DAGs with skewed clocks",
@@ -69,7 +69,7 @@ CHECKS = {
    note="Process kill, not machine crash. In-process points release the Badger handle via Close; real kills are the SIGKILL tier. Stores reset by fast-sync excluded (bootstrap from 0 only)."),
  "C15": dict(engine="dagcheck", cat="exploration", ref="DESIGN.md §3 C15",
    technique="runtime monitoring: round-trip equalities over generated events/blocks/frames through the real wire, JSON, database and canonical encodings",
-   text="Generated events with a payload variant grammar go event->wire->transport JSON->event on a second real Hashgraph, event->DB form->event, into a real Badger store (read back after eviction and after reopen); blocks and frames of real histories go through the FastForwardResponse JSON, the canonical encoding and a rebuild with permuted map order. Hash, signature validity, payload bytes, wire form and private fields must be unchanged.",
+   text="Generated events with a payload variant grammar go event->wire->transport JSON->event on a second real Hashgraph, event->DB form->event, into a real Badger store (read back after eviction and after reopen); blocks and frames of real histories go through the FastForwardResponse JSON, the canonical encoding and a rebuild with permuted map order. Validator sets in every accepted key spelling are written to Badger and read back from the database before and after a reopen. Hash, signature validity, payload bytes, wire form and private fields must be unchanged.",
    note="Block signatures inside generated events are attributed to their creator (wire form has no validator field by design)."),
  "C16": dict(engine="storecheck", cat="exploration", ref="DESIGN.md §3 C16",
    technique="runtime monitoring: model-based differential replay of recorded store call sequences against the real BadgerStore across cache sizes, with interleaved reads and close/reopen",
@@ -77,7 +77,7 @@ CHECKS = {
    note="A write returning an error is a refused write and not applied to the model; cache-only reads judged through DB-level hooks only."),
  "C17": dict(engine="nodesim", cat="exploration", ref="DESIGN.md §3 C17",
    technique="runtime monitoring: frozen-state digest around valid would-be-effective requests in every non-babbling state; exact sync-diff oracle for suspended nodes; threshold monitor after every suspension check",
-   text="Real nodes in suspended / maintenance / joining / catching-up / shutdown states receive valid EagerSync (with events they lack), Sync, Join, FastForward requests and submissions: nothing may change, mutating requests must be refused; a run-time suspended node must answer syncs with exactly its events beyond the requester's known map in insertion order. Quorum-less runs with small limits: after each heartbeat check suspended iff new undetermined > limit x validators or evicted.",
+   text="Real nodes in suspended / maintenance / joining / catching-up / shutdown states receive valid EagerSync (with events they lack), Sync, Join, FastForward requests and submissions: nothing may change, mutating requests must be refused; a run-time suspended node must answer syncs with exactly its events beyond the requester's known map in insertion order. Quorum-less runs with small limits: after each heartbeat check suspended iff new undetermined > limit x validators or evicted. A live tier (RunAsync, TCP) checks the same on the node's own background loop: a lone node whose gossip list is itself, and networks in which more than a third of the validators never start.",
    note="Submitted transactions may enter the pool of a non-babbling node (no event is created)."),
  "C20": dict(engine="live", cat="exploration", ref="DESIGN.md §3 C20",
    technique="runtime monitoring with fault injection: real proxy pairs over loopback behind a cutting TCP forwarder, comparing both sides' views of blocks, responses and transactions",
